@@ -14,7 +14,7 @@ meta = {"id": sid, "breaks_property": pid, "needs_to_manifest": needs, "detected
         "confirmed": {"how": "tools/confirm_seed.sh: demo.py exits 0 on the unchanged tree (PYTHONPATH=/repo) and 1 with the change applied in a scratch worktree; the 41 baseline tests (BASELINE.json stable_pass) re-run with the change applied",
                       "result": confirm.strip().split("\n")},
         "made_by": "independent sub-agent given only the property text and a scratch worktree",
-        "applies_to": "pinned commit d94b1bd (git -C /repo apply seeded/%s/patch.diff; undo with git -C /repo checkout -- .)" % sid}
+        "applies_to": "/repo HEAD %s (git -C /repo apply seeded/%s/patch.diff; undo with git -C /repo checkout -- .)" % (subprocess.run(["git", "-C", "/repo", "rev-parse", "--short", "HEAD"], capture_output=True, text=True).stdout.strip(), sid)}
 json.dump(meta, open(os.path.join(dst, "meta.json"), "w"), indent=1)
 subprocess.run(["git", "-C", "/repo", "worktree", "remove", "--force", "/tmp/wt_" + sid])
 print("kept", dst)
